@@ -718,3 +718,47 @@ def t_smt(t):
 
 
 KINDS.update({"smt": t_smt})
+
+
+def _canon_ops(ops):
+    out = []
+    for o in ops:
+        v = o.get("value", None)
+        if v is None:
+            vs = "-"
+        elif isinstance(v, int):
+            vs = "i:%d" % v
+        else:
+            vs = "s:%s" % v
+        out.append("%s~%s" % (o["name"], vs))
+    return "|".join(out)
+
+
+def t_plain_ops(t):
+    """the real plain-text reader on raw texts (C15 correspondence with Models/Plain.lean): canonical op list or 'error'"""
+    from sfs_generator.parser_asm import plain_instructions_to_asm_representation
+    rows = []
+    for text in t["texts"]:
+        try:
+            rows.append(_canon_ops(plain_instructions_to_asm_representation(text)))
+        except (IndexError, ValueError) as ex:
+            rows.append("error")
+        except Exception as ex:
+            rows.append("exception:%s" % type(ex).__name__)
+    return {"rows": rows}
+
+
+def t_plain_print(t):
+    """AsmBytecode.to_plain on (disasm, value) items under a PUSH0 setting"""
+    from sfs_generator.asm_bytecode import AsmBytecode
+    impl.constants._set_push0(bool(t.get("push0", True)))
+    rows = []
+    for items in t["blocks"]:
+        try:
+            rows.append(" ".join(AsmBytecode(-1, -1, -1, d, v).to_plain() for d, v in items))
+        except Exception as ex:
+            rows.append("exception:%s" % type(ex).__name__)
+    return {"rows": rows}
+
+
+KINDS.update({"plain_ops": t_plain_ops, "plain_print": t_plain_print})
